@@ -8,6 +8,7 @@ package command
 // wire / recording scanner and a scripted request stream. Used by C07, C08, C12, C16.
 
 import (
+	"io"
 	"bytes"
 	"context"
 	"errors"
@@ -36,6 +37,26 @@ type vLogger struct {
 func newVLogger() *vLogger {
 	l := &vLogger{out: &bytes.Buffer{}}
 	l.inner = log.VerifNewJSONLogger(l.out, "verif")
+	return l
+}
+
+// vSlowOutput: when > 0, the logger writes through a pipe to a slow reader (every write blocks that long
+// on the virtual clock): results back up in the queues behind it
+var vSlowOutput time.Duration
+
+type vSlowWriter struct {
+	w io.Writer
+	d time.Duration
+}
+
+func (s vSlowWriter) Write(p []byte) (int, error) {
+	vs.Sleep(s.d)
+	return s.w.Write(p)
+}
+
+func newVLoggerSlow(d time.Duration) *vLogger {
+	l := &vLogger{out: &bytes.Buffer{}}
+	l.inner = log.VerifNewJSONLogger(vSlowWriter{l.out, d}, "verif")
 	return l
 }
 
@@ -357,6 +378,9 @@ func vGenericScenario(pattern []int, workers int, exitDelay time.Duration, rate 
 	main = func() {
 		st.scanner = &vScanner{pattern: pattern, calls: map[int]int{}, callers: map[int]string{}}
 		st.logger = newVLogger()
+		if vSlowOutput > 0 {
+			st.logger = newVLoggerSlow(vSlowOutput)
+		}
 		st.logger.slowErrs = slow
 		st.gen = &vReqGen{pattern: pattern}
 		var ctx context.Context
@@ -373,6 +397,13 @@ func vGenericScenario(pattern []int, workers int, exitDelay time.Duration, rate 
 		}
 		st.ret, st.retT = true, vs.VNow()
 		vs.Observe("return", "")
+		if ctx.Err() != nil {
+			// the scan was cancelled: the result stream it was draining comes to an end, whatever was
+			// still queued in it (a consumer that reads on must not wait for ever)
+			for range engine.Results() {
+			}
+			vs.Observe("results-closed", "")
+		}
 	}
 	return
 }
